@@ -293,8 +293,32 @@ def _mat_coq(x):
     return None
 
 
+# OBJECT SHARING: when a case says "share", structurally equal term / criterion / SELECT specs occurring at several
+# places of one statement are built ONCE and the very same Python object is used at every place (the model is a tree,
+# so it sees the duplicate specs; the implementation must collect the values of every occurrence again).
+_SHARE = None
+
+
+def _skey(tag, x, *extra):
+    return json.dumps([tag, x] + list(extra), sort_keys=True)
+
+
 def build_term(t):
-    return tf.build(map_leaves(t, _mat_py))
+    if _SHARE is None:
+        return tf.build(map_leaves(t, _mat_py))
+    k = _skey("term", t)
+    if k not in _SHARE:
+        if t[0] == "case" and t[1]:
+            import pypika.terms as T
+            c = T.Case(alias=t[3])
+            for cr, v in t[1]:
+                c = c.when(build_term(cr), build_term(v))      # members shared with other places of the statement
+            if t[2] is not None:
+                c = c.else_(build_term(t[2]))
+            _SHARE[k] = c
+        else:
+            _SHARE[k] = tf.build(map_leaves(t, _mat_py))
+    return _SHARE[k]
 
 
 def coq_term(t):
@@ -372,6 +396,10 @@ def build_src(s, dialect):
         tb = Table(s[1])
         return tb if s[2] is None else tb.as_(s[2])
     q = build_sel(s[1], dialect)
+    if _SHARE is not None:
+        if s[2] is not None and q.alias != s[2]:
+            q.alias = s[2]          # in place: the same object may also serve as an IN container / set-operation operand
+        return q
     return q if s[2] is None else q.as_(s[2])
 
 
@@ -389,6 +417,15 @@ def build_wc(w, dialect):
 
 
 def build_sel(s, dialect, start=None, wrap=None):
+    if _SHARE is not None and start is None:
+        k = _skey("sel", s, dialect, wrap)
+        if k not in _SHARE:
+            _SHARE[k] = _build_sel(s, dialect, start, wrap)
+        return _SHARE[k]
+    return _build_sel(s, dialect, start, wrap)
+
+
+def _build_sel(s, dialect, start=None, wrap=None):
     from pypika.enums import JoinType, Order
     Q = _qcls(dialect)
     src = build_src(s["from"], dialect)
@@ -549,7 +586,9 @@ def _collector(style):
 
 def _render(case, style):
     """(text | "!Exc", collected as [[key, tagged value]])"""
+    global _SHARE
     p = _collector(style)
+    _SHARE = {} if case.get("share") else None
     try:
         if case["kind"] == "term":
             obj = build_term(case["t"])
@@ -561,7 +600,9 @@ def _render(case, style):
             kw["parameter"] = p
         text = obj.get_sql(**kw)
     except Exception as e:  # noqa
+        _SHARE = None
         return "!" + type(e).__name__, []
+    _SHARE = None
     if p is None:
         return text, []
     got = p.get_parameters()
@@ -846,6 +887,59 @@ def sqlite_friendly(x, in_container=False):
     return [sqlite_friendly(y) for y in x]
 
 
+def gen_shared(rng, tier):
+    """statements in which ONE object occurs at several places (built shared, see build_term / build_sel)"""
+    g = PGen(rng, allowed=[], p_alias=0.0, p_table=0.0, hostile=0.2, p_none=0.0)
+    r = rng.random()
+    d = rng.choice([1, 2])
+    if r < 0.35:
+        # the same query object as several set-operation operands: a+b+b, a+a, a+b+a
+        a = gen_sel(rng, 0, ncols=1, tier=tier)
+        b = gen_sel(rng, 0, ncols=1, tier=tier)
+        for x in (a, b):
+            if x["where"] is None:
+                x["where"] = ["t", ["basic", "eq", g.field(), g.value(), None]]
+        shape = rng.choice([[a, b, b], [a, a], [a, b, a], [b, a, a]])
+        ops = [[rng.choice(["UNION", "UNION ALL", "UNION ALL", "INTERSECT"]), x] for x in shape[1:]]
+        return ["setop", rng.random() < 0.5, shape[0], ops, [], rng.choice([None, 5]), None]
+    if r < 0.55:
+        # the same sub-query object in FROM and as the container of IN
+        sub = gen_sel(rng, 0, ncols=1, tier=tier)
+        sub["where"] = ["t", ["basic", rng.choice(["gt", "lt", "eq"]), g.field(), g.value(), None]]
+        outer = gen_sel(rng, 0, tier=tier)
+        outer["from"] = ["q", sub, "sq0"]
+        outer["joins"] = []
+        outer["cols"] = [g.field(), g.value()]
+        outer["groupby"], outer["orderby"], outer["having"] = [], [], None
+        w = ["in", g.field(), sub, rng.random() < 0.3]
+        outer["where"] = w if rng.random() < 0.5 else ["and", ["t", g.boolean(1)], w]
+        return ["select", outer]
+    if r < 0.8:
+        # the same term object (with literals) in the select list and in ORDER BY / GROUP BY / HAVING
+        x = g.num(d)
+        while not [l for l in walk_leaves(x, []) if l[0] in VALUE_KINDS]:
+            x = ["arith", "add", g.field(), g.value(), None]
+        y = ["basic", rng.choice(["gt", "lte"]), g.field(), g.value(), None]
+        s_ = gen_sel(rng, 0, tier=tier)
+        s_["joins"], s_["from"] = [], ["t", rng.choice(TBLS), None]
+        s_["cols"] = [x, y, g.field()]
+        s_["groupby"] = [x] if rng.random() < 0.6 else []
+        s_["having"] = ["t", y] if rng.random() < 0.6 else None
+        s_["orderby"] = [[x, rng.choice([None, True, False])]] + ([[y, None]] if rng.random() < 0.4 else [])
+        s_["where"] = rng.choice([None, ["t", y], ["t", ["cplx", "and", y, g.boolean(1), None]]])
+        return ["select", s_]
+    # the same criterion object in WHERE and inside a CASE of the select list
+    c = g.boolean(d)
+    while not [l for l in walk_leaves(c, []) if l[0] in VALUE_KINDS]:
+        c = ["basic", "eq", g.field(), g.value(), None]
+    s_ = gen_sel(rng, 0, tier=tier)
+    s_["joins"], s_["from"] = [], ["t", rng.choice(TBLS), None]
+    s_["cols"] = [["case", [[c, g.value()]], g.value() if rng.random() < 0.5 else None, None], g.field()]
+    s_["where"] = ["t", c]
+    s_["groupby"], s_["having"], s_["orderby"] = [], None, []
+    return ["select", s_]
+
+
 def gen_cases(rng, tier):
     n = 520 if tier == "quick" else 7000
     out = []
@@ -864,12 +958,21 @@ def gen_cases(rng, tier):
             if rng.random() < 0.5:
                 t = ["between", g.value(), t, g.value(), None]      # values collected before the failure
             out.append({"kind": "term", "t": t, "c": dict(tf.STR_CTX), "sty": sty})
+        elif r < 0.50:
+            st = gen_shared(rng, tier)
+            dialect = rng.choice(["generic", "sqlite", "sqlite"])
+            if dialect == "sqlite" and rng.random() < 0.7:
+                st = sqlite_friendly(st)
+            out.append({"kind": "stmt", "s": st, "dialect": dialect, "sty": sty, "share": True})
         else:
             st = gen_stmt(rng, tier)
             dialect = rng.choice(["generic", "sqlite", "sqlite"])
             if dialect == "sqlite" and rng.random() < 0.7:
                 st = sqlite_friendly(st)
-            out.append({"kind": "stmt", "s": st, "dialect": dialect, "sty": sty})
+            c = {"kind": "stmt", "s": st, "dialect": dialect, "sty": sty}
+            if rng.random() < 0.3:
+                c["share"] = True       # structurally equal parts, if any, become one object
+            out.append(c)
     for c in out:
         _normalise_raw(c)
     return out
@@ -948,6 +1051,22 @@ def corpus():
                                          **{"from": ["q", _sel([F("a"), F("b")], where=["t", ["basic", "eq", F("c"), Sv("in"), None]]), "sq0"]})]})
         out.append({"kind": "stmt", "dialect": "sqlite", "sty": sty,
                     "s": ["delete", "t", ["t", ["between", F("a"), I(1), I(3), None]]]})
+        # OBJECT SHARING: a + b + b (same operand object twice); same sub-query in FROM and IN; same term in select list,
+        # GROUP BY, HAVING and ORDER BY; same criterion in WHERE and CASE
+        qa = _sel([F("a")], where=["t", ["basic", "eq", F("b"), Sv("a"), None]])
+        qb = _sel([F("a")], frm="u", where=["t", ["basic", "gt", F("c"), I(2), None]])
+        out.append({"kind": "stmt", "dialect": "sqlite", "sty": sty, "share": True,
+                    "s": ["setop", False, qa, [["UNION ALL", qb], ["UNION ALL", qb]], [[F("a"), True]], None, None]})
+        out.append({"kind": "stmt", "dialect": "generic", "sty": sty, "share": True,
+                    "s": ["setop", True, qa, [["UNION", qa], ["INTERSECT", qb]], [], None, None]})
+        out.append({"kind": "stmt", "dialect": "sqlite", "sty": sty, "share": True,
+                    "s": ["select", _sel([F("a"), I(7)], where=["in", F("a"), qb, False], **{"from": ["q", qb, "sq0"]})]})
+        xs = ["arith", "add", F("a"), I(5), None]
+        ys = ["basic", "gt", F("b"), I(1), None]
+        out.append({"kind": "stmt", "dialect": "sqlite", "sty": sty, "share": True,
+                    "s": ["select", _sel([xs, ys], where=["t", ys], groupby=[xs], having=["t", ys], orderby=[[xs, False]])]})
+        out.append({"kind": "stmt", "dialect": "sqlite", "sty": sty, "share": True,
+                    "s": ["select", _sel([["case", [[ys, Sv("big")]], Sv("small"), None]], where=["t", ys])]})
         # an integer constant in ORDER BY / GROUP BY: select-list position inline, constant when bound
         out.append({"kind": "stmt", "dialect": "sqlite", "sty": sty,
                     "s": ["select", _sel([I(0), I(2), ["basic", "gte", I(2), F("x1"), None]], frm="u", orderby=[[I(3), False]])]})
@@ -1367,7 +1486,7 @@ def nontrivial_key(case):
     spec = case["t"] if case["kind"] == "term" else case["s"]
     vals = [x for x in walk_leaves(spec, []) if x[0] in VALUE_KINDS]
     if case["sty"] != "inline" and len(vals) >= 2:
-        return json.dumps([spec, case["sty"], case.get("c"), case.get("dialect")], sort_keys=True)
+        return json.dumps([spec, case["sty"], case.get("c"), case.get("dialect"), bool(case.get("share"))], sort_keys=True)
     return None
 
 
@@ -1383,6 +1502,8 @@ def histogram(cases):
             spec = c["t"]
         else:
             bump("kind=stmt/" + c["s"][0])
+            if c.get("share"):
+                bump("objects shared")
             bump("dialect=" + c["dialect"])
             spec = c["s"]
         for x in walk_leaves(spec, []):
@@ -1402,6 +1523,9 @@ def targeted_search(rng, broken, mism_cases):
             d = dict(c)
             d["sty"] = sty
             out.append(d)
+            d2 = dict(d)
+            d2["share"] = True
+            out.append(d2)
         if c["kind"] == "stmt" and c["s"][0] == "select":
             s = c["s"][1]
             for key in ("where", "having"):
@@ -1416,7 +1540,8 @@ def targeted_search(rng, broken, mism_cases):
             g = PGen(rng, p_alias=0.1, p_table=0.2, hostile=0.2, p_none=0.0)
             out.append({"kind": "term", "t": rng.choice([g.boolean, g.num])(3), "c": dict(tf.STR_CTX), "sty": sty})
         else:
-            out.append({"kind": "stmt", "s": gen_stmt(rng, "quick"), "dialect": "sqlite", "sty": sty})
+            out.append({"kind": "stmt", "s": gen_shared(rng, "quick") if rng.random() < 0.4 else gen_stmt(rng, "quick"),
+                        "dialect": "sqlite", "sty": sty, "share": True})
     for c in out:
         _normalise_raw(c)
     return out
